@@ -6,8 +6,8 @@ let char_of_ascii a = match a with
     Char.chr (List.fold_right (fun b acc -> 2 * acc + (if b then 1 else 0)) [b0; b1; b2; b3; b4; b5; b6; b7] 0)
 let rec str s = match s with EmptyString -> "" | String (c, r) -> String.make 1 (char_of_ascii c) ^ str r
 let () =
-  List.iter (fun ((((k, s), n), a), b) ->
-    Printf.printf "layout\t%s\t%s\t%s\t%d\t%d\n" (str k) (str s) (str n) (int_of_nat a) (int_of_nat b)) c02_layout_mismatches;
+  List.iter (fun (path, ((((k, s), n), a), b)) ->
+    Printf.printf "layout@%s\t%s\t%s\t%s\t%d\t%d\n" (str path) (str k) (str s) (str n) (int_of_nat a) (int_of_nat b)) c02_layout_mismatches;
   List.iter (fun s -> Printf.printf "readme\tnot-packed-or-not-aligned4\t%s\t\t0\t0\n" (str s)) c02_readme_violations;
   List.iter (fun s -> Printf.printf "readme\tfloat-member-not-aligned4\t%s\t\t0\t0\n" (str s)) c02_float_violations;
   print_endline "END"
